@@ -15,7 +15,7 @@ def run(ctx):
     res = ctx.gotest('header', 'TestVerif_C47')
     ctx.take_mismatches(res)
     ctx.traces += n
-    ctx.require_actions('enc', 'parse', 'valid')
+    ctx.require_actions('enc', 'parse', 'valid', 'parse:roomy-buffer')
 
 
 META = {
